@@ -400,6 +400,7 @@ impl Check for Fungible {
         let mut m = Model { now: cfg.start_ledger, flavour: Some(cfg.flavour), ..Default::default() };
         let mut ev_bal: BTreeMap<usize, i128> = BTreeMap::new(); // balances reconstructed from events
         for (i, s) in steps.iter().enumerate() {
+            let mut parked: Option<Violation> = None;
             match s {
                 Step::List { user, on } => {
                     w.set_auth(&[]);
@@ -474,22 +475,25 @@ impl Check for Fungible {
                                 let authorised_by_holder = entries.iter().any(|(w_, _)| *w_ == x) && matches!(op, Op::Transfer { from, .. } | Op::Burn { from, .. } if *from == x);
                                 let by_allowance = matches!(op, Op::TransferFrom { from, spender, .. } | Op::BurnFrom { from, spender, .. } if *from == x && entries.iter().any(|(w_, _)| w_ == spender));
                                 if !(authorised_by_holder || by_allowance) {
-                                    return Err(violation("auth.debit_needs_holder_or_allowance", kind, i, format!("balance of actor {x} fell {} -> {nb} in {s:?}", bal_before[x])));
+                                    self.clause(st, &mut parked, violation("auth.debit_needs_holder_or_allowance", kind, i, format!("balance of actor {x} fell {} -> {nb} in {s:?}", bal_before[x])))?;
                                 }
                             }
                         }
                     }
                     if got != exp {
+                        if let Some(v) = parked.take() {
+                            return Err(v);
+                        }
                         let gate_closed = !m.gate(op);
                         let check = if got && gate_closed { "gate.list" } else if got { "refine.must_fail" } else { "live.honest_call_succeeds" };
                         return Err(violation(check, kind, i, format!("model expected success={exp}, real={got}; step={s:?}; now={} model={m:?}", w.now())));
                     }
                     if !got {
                         if w.storage_digest(&[&id]) != before {
-                            return Err(violation("fail.no_trace", kind, i, format!("storage changed by failed {s:?}")));
+                            self.clause(st, &mut parked, violation("fail.no_trace", kind, i, format!("storage changed by failed {s:?}")))?;
                         }
                         if !events.events().is_empty() {
-                            return Err(violation("fail.no_trace", "events", i, format!("events emitted by failed {s:?}")));
+                            self.clause(st, &mut parked, violation("fail.no_trace", "events", i, format!("events emitted by failed {s:?}")))?;
                         }
                     } else {
                         // events → reconstructed balances; exactly one mint/burn/transfer event per successful update
@@ -516,7 +520,7 @@ impl Check for Fungible {
                         }
                         let expect_events = if matches!(op, Op::Approve { .. }) { 0 } else { 1 };
                         if n_update_events != expect_events {
-                            return Err(violation("events.one_per_update", kind, i, format!("{n_update_events} update events for {s:?}")));
+                            self.clause(st, &mut parked, violation("events.one_per_update", kind, i, format!("{n_update_events} update events for {s:?}")))?;
                         }
                     }
                 }
@@ -526,30 +530,33 @@ impl Check for Fungible {
             for x in 0..cfg.actors {
                 let b = qi("balance", (w.actors[x].clone(),).into_val(e));
                 if b != m.b(x) {
-                    return Err(violation("conserve.balance_model_eq", "balance", i, format!("actor {x}: real {b} model {}", m.b(x))));
+                    self.clause(st, &mut parked, violation("conserve.balance_model_eq", "balance", i, format!("actor {x}: real {b} model {}", m.b(x))))?;
                 }
                 if b < 0 {
-                    return Err(violation("conserve.nonneg", "balance", i, format!("actor {x}: {b}")));
+                    self.clause(st, &mut parked, violation("conserve.nonneg", "balance", i, format!("actor {x}: {b}")))?;
                 }
                 sum = match sum.checked_add(b) {
                     Some(x) => x,
                     None => return Err(violation("conserve.sum_eq_supply", "supply", i, "sum of balances exceeds i128::MAX".into())),
                 };
                 if *ev_bal.get(&x).unwrap_or(&0) != b {
-                    return Err(violation("events.replay_balances", "balance", i, format!("actor {x}: events give {} real {b}", ev_bal.get(&x).unwrap_or(&0))));
+                    self.clause(st, &mut parked, violation("events.replay_balances", "balance", i, format!("actor {x}: events give {} real {b}", ev_bal.get(&x).unwrap_or(&0))))?;
                 }
             }
             let ts = qi("total_supply", ().into_val(e));
             if ts != sum || ts != m.supply {
-                return Err(violation("conserve.sum_eq_supply", "supply", i, format!("total_supply {ts} sum {sum} model {}", m.supply)));
+                self.clause(st, &mut parked, violation("conserve.sum_eq_supply", "supply", i, format!("total_supply {ts} sum {sum} model {}", m.supply)))?;
             }
             for o in 0..cfg.actors {
                 for sp in 0..cfg.actors {
                     let al = qi("allowance", (w.actors[o].clone(), w.actors[sp].clone()).into_val(e));
                     if al != m.allowance(o, sp) {
-                        return Err(violation("allowance.model_eq", "allowance", i, format!("({o},{sp}): real {al} model {} now {}", m.allowance(o, sp), w.now())));
+                        self.clause(st, &mut parked, violation("allowance.model_eq", "allowance", i, format!("({o},{sp}): real {al} model {} now {}", m.allowance(o, sp), w.now())))?;
                     }
                 }
+            }
+            if let Some(v) = parked.take() {
+                return Err(v);
             }
             st.state(&(cfg.flavour as u8, m.listed.len(), m.bal.values().map(|v| v.signum() as i8 + (*v > 1_000_000) as i8).collect::<Vec<_>>(), m.allow.values().filter(|v| v.0 > 0 && v.1 >= m.now).count()));
         }
